@@ -521,6 +521,90 @@ check(slot_t *sl, IMB_JOB *j)
         hset_add(distinct, hash_bytes(dk, sizeof dk, 3));
 }
 
+/* pass 2 - lane patterns: on a pristine manager image, L = 4, 8, 16 jobs are submitted so that job i sits in lane i; all have
+ * the same base length except the one at position p (every p), which is shorter or longer by one unit, one AES block or a few
+ * blocks; bases are the multiples of 16/32/64 bytes at which the multi-buffer kernels switch between their "all lanes in
+ * common" and per-lane tail code. Every job is compared with the reference model as in the other passes. */
+static uint32_t
+lp_len(int a, long want)
+{
+        const alg_t *A = &ALGS[a];
+        if (want < 1)
+                want = 1;
+        uint32_t l = (uint32_t) want;
+        if (l < A->minlen)
+                l = A->minlen;
+        while (!alg_len_ok(a, l) && l < A->maxlen)
+                l++;
+        return alg_len_ok(a, l) ? l : 0;
+}
+static void
+lane_patterns(IMB_MGR *m)
+{
+        const alg_t *A = &ALGS[g_a];
+        if (A->family == F_DOCSISCRC || A->family == F_PON || A->family == F_NULLC)
+                return;
+        const size_t mgr_sz = imb_get_mb_mgr_size();
+        uint8_t *pristine = malloc(mgr_sz);
+        memcpy(pristine, m, mgr_sz);
+        static const uint32_t BASES[] = { 16, 32, 48, 64, 128, 256 };
+        static const int DELTAS[] = { 1, 16, 67, -1, -16, 320 };
+        const long unit = A->bitlen ? 8 : 1;
+        uint64_t serial = 1u << 20;
+        long long npat = 0;
+        for (int lanes = 4; lanes <= 16; lanes *= 2)
+                for (unsigned bi = 0; bi < sizeof BASES / sizeof BASES[0]; bi++) {
+                        const uint32_t lb = lp_len(g_a, (long) BASES[bi] * unit);
+                        for (unsigned di = 0; di < sizeof DELTAS / sizeof DELTAS[0]; di++) {
+                                const uint32_t lo = lp_len(g_a, ((long) BASES[bi] + DELTAS[di]) * unit);
+                                if (!lb || !lo || lo == lb)
+                                        continue;
+                                if (!thorough && lanes == 16 && (di == 2 || di == 4))
+                                        continue;
+                                for (int p = 0; p < lanes; p++) {
+                                        memcpy(m, pristine, mgr_sz);
+                                        int inflight = 0;
+                                        for (int i = 0; i <= lanes; i++) {
+                                                IMB_JOB *r;
+                                                if (i < lanes) {
+                                                        shape_t s = { .len = i == p ? lo : lb,
+                                                                      .dir = (uint8_t) (A->kind == AK_HASH ? 1 : (bi + di) & 1) };
+                                                        if (A->kind == AK_AEAD)
+                                                                s.aadlen = (uint16_t) (A->family == F_CCM ? 13 : 20);
+                                                        slot_t *sl = &SL[i];
+                                                        prep(sl, s, i & 1, serial++);
+                                                        IMB_JOB *j = X_GET_NEXT(m);
+                                                        alg_fill(m, j, &sl->it);
+                                                        j->user_data = sl;
+                                                        sl->busy = 1;
+                                                        inflight++;
+                                                        r = X_SUBMIT(m);
+                                                } else
+                                                        r = X_FLUSH(m);
+                                                while (r) {
+                                                        slot_t *sl = r->user_data;
+                                                        if (!sl || sl < SL || sl >= SL + NSLOT || !sl->busy) {
+                                                                viol(&SL[0], "bogus-job", "returned job has unknown user_data", 0);
+                                                                break;
+                                                        }
+                                                        check(sl, r);
+                                                        sl->busy = 0;
+                                                        inflight--;
+                                                        r = i < lanes ? X_GET_COMPLETED(m) : X_FLUSH(m);
+                                                }
+                                        }
+                                        if (inflight)
+                                                viol(&SL[p], "not-exactly-once", "lane pattern: jobs left in the manager after flush", inflight);
+                                        for (int i = 0; i < NSLOT; i++)
+                                                SL[i].busy = 0;
+                                        npat++;
+                                }
+                        }
+                }
+        stat_add("lane_patterns", npat);
+        memcpy(m, pristine, mgr_sz);
+        free(pristine);
+}
 static void
 run_alg_variant(long item, void *arg)
 {
@@ -586,6 +670,7 @@ run_alg_variant(long item, void *arg)
                         break;
                 }
         }
+        lane_patterns(m);
         stat_add("evaluations", n_eval);
         stat_add("distinct_nontrivial", (long long) hset_count(distinct));
         stat_add("bytes_compared", n_cmp_bytes);
@@ -654,7 +739,8 @@ main(int argc, char **argv)
               "different shapes in flight - as a minimal job (unneeded pointers poisoned) and compared byte for byte "
               "(bit for bit) with the reference model; distinct_nontrivial counts distinct cases whose output was "
               "compared; length sweep = every valid length up to the dense bound plus stripes around 4080/4096/.../65520 "
-              "and the per-mode maximum");
+              "and the per-mode maximum; lane patterns = on a pristine manager image 4/8/16 jobs (job i in lane i) of one base length "
+              "(16..256 bytes) except one position p (every p) that is 1 unit / 1 block / several blocks shorter or longer");
         rec_end();
         stats_emit();
         return 0;
